@@ -73,7 +73,7 @@ def _run_trace(toks):
     txt = fc.tokens_text(toks, _symbols())
     o = fc.observe(formula_to_composition, fc.code_text(txt))
     ev = {"k": "result", "txt": txt, "raised": o["raised"],
-          "comp": o.get("comp", []), "q": o.get("q", 0), "shown": []}
+          "comp": o.get("comp", []), "q": o.get("q", 0), "shown": [], "mass9": []}
     if "unencodable" in o:
         return None, o
     return [t for t in toks] + [ev], o
